@@ -452,21 +452,41 @@ structure NRule where
   limit : Int
   ak : Bool
   inc : Int
-  marks : Option Nat := none  -- the action also sets the fact `N<mk>_fired = true` (a marker that appears during a cycle)
+  marks : Option Nat := none  -- the action also sets the fact `N<mk>_fired` (a marker that appears during a cycle) …
+  mval : Nat := 0             -- … to the value with this code (see `markerFired`; 0 = the engine's own "fired" value)
 deriving Repr, DecidableEq
 
-def toNURule (r : NRule) : URule CFacts :=
+/-- What each map engine READS as "fired" in a `<name>_fired` fact, per value code of the `M` cases.  The model state
+`CFacts.firedFlags` is the set of names whose marker fact is currently read as fired; a marker fact with any other value is
+indistinguishable from an absent one for both loops (the value itself is never observed).
+* `ReteUlEngine` (`typed = false`; `fire_rete_ul_rules_with_agenda`, filter and re-check): `facts.get(..).map(String::as_str) ==
+  Some("true")` — exactly the string "true".  Codes: 0, 1 = "true", 2 = "false", 3 = "", 4 = "0", 5 = "1", 6 = "TRUE", 7 = "True",
+  8 = " true", 9 = "true ", 10 = "yes", 11.. = other strings.
+* `TypedReteUlEngine` (`typed = true`): `facts.get(..).and_then(|v| v.as_boolean()) == Some(true)` with `FactValue::as_boolean`
+  (src/rete/facts.rs): Boolean(b) ↦ b; Integer(i) ↦ i ≠ 0; String(s) ↦ lower-case s ∈ {"true","yes","1"} (true), {"false","no","0"}
+  (false), else None; Null ↦ false.  Codes 1..10 = String(the string above), 0, 11 = Boolean(true), 12 = Boolean(false),
+  13 = Integer(1), 14 = Integer(0), 15 = Null. -/
+def markerFired (typed : Bool) (v : Nat) : Bool :=
+  if typed then v == 0 || v == 1 || v == 5 || v == 6 || v == 7 || v == 10 || v == 11 || v == 13
+  else v == 0 || v == 1
+
+def cClearFired (n : Nat) (s : CFacts) : CFacts := { s with firedFlags := s.firedFlags.filter (· != n) }
+
+/-- `set_fact("N<n>_fired", value v)` / the same insertion by a rule's action: the fact is overwritten -/
+def cMark (typed : Bool) (n v : Nat) (s : CFacts) : CFacts := if markerFired typed v then cSetFired n s else cClearFired n s
+
+def toNURule (typed : Bool) (r : NRule) : URule CFacts :=
   { name := r.name, prio := r.prio, noLoop := r.noLoop, cond := fun s => decide (s.get r.ck < r.limit),
     act := fun s =>
       match r.marks with
-      | some k => cSetFired k (s.bump r.ak r.inc)
+      | some k => cMark typed k r.mval (s.bump r.ak r.inc)
       | none => s.bump r.ak r.inc }
 
 inductive MOp where
   | fire                      -- fire_all
   | reset                     -- reset_fired_flags: removes every `*_fired` fact
   | set (a b : Int)           -- set_fact C.a / C.b
-  | marker (n : Nat)          -- set_fact `N<n>_fired = true` from outside
+  | marker (n : Nat) (v : Nat := 0)  -- set_fact `N<n>_fired = <value with code v>` from outside
 deriving Repr, DecidableEq
 
 inductive MRes where
@@ -478,12 +498,12 @@ deriving Repr, DecidableEq
 (`ReteUlEngine` since fix-C07c); `ReteUlEngine` additionally lets every rule NAME fire at most once per call. -/
 def mstep (typed : Bool) (rules : List NRule) (s : CFacts) : MOp → CFacts × MRes
   | .fire =>
-    let r := if typed then typedLoop (rules.map toNURule) cSetFired cIsFired typedBound s [] []
-             else ulLoop (rules.map toNURule) cSetFired cIsFired ulBound s [] []
+    let r := if typed then typedLoop (rules.map (toNURule true)) cSetFired cIsFired typedBound s [] []
+             else ulLoop (rules.map (toNURule false)) cSetFired cIsFired ulBound s [] []
     (r.1, .fired r.2 r.1.a r.1.b)
   | .reset => ({ s with firedFlags := [] }, .unit)
   | .set a b => ({ s with a := a, b := b }, .unit)
-  | .marker n => (cSetFired n s, .unit)
+  | .marker n v => (cMark typed n v s, .unit)
 
 def mtrace (typed : Bool) (rules : List NRule) (s : CFacts) : List MOp → List MRes
   | [] => []
